@@ -1,0 +1,104 @@
+//go:build verif
+
+package bloomsearch
+
+// Exported test-only wrappers for the file-format family of the verification
+// harness (build tag "verif"). No logic lives here: each function forwards to
+// the unexported code it names and reports what that code returned.
+
+import (
+	"io"
+)
+
+// Constants the harness cross-checks against the model's parameters.
+const (
+	VerifBlockFilterChunkTarget = int64(blockFilterChunkTarget)
+	VerifScanBufferMinShift     = scanBufferMinShift
+	VerifScanBufferMaxShift     = scanBufferMaxShift
+	VerifFilterSectionFlagsAll  = filterSectionFlagsAll
+)
+
+// VerifValidateMetadata forwards to FileMetadata.validate.
+func VerifValidateMetadata(m *FileMetadata, dataLimit int64) error { return m.validate(dataLimit) }
+
+// VerifValidateFilterSection forwards to DataBlockMetadata.validateFilterSection.
+func VerifValidateFilterSection(b *DataBlockMetadata, regionOffset, regionEnd int64) error {
+	return b.validateFilterSection(regionOffset, regionEnd)
+}
+
+// VerifPlanBlockFilterReads forwards to planBlockFilterReads.
+func VerifPlanBlockFilterReads(blocks []DataBlockMetadata, regionOffset, regionSize int) (int64, int64, bool, error) {
+	return planBlockFilterReads(blocks, regionOffset, regionSize)
+}
+
+// VerifEncodeFilterSection forwards to encodeFilterSection.
+func VerifEncodeFilterSection(filters *BloomFilters) ([]byte, error) {
+	return encodeFilterSection(filters)
+}
+
+// VerifParseFilterSection forwards to parseFilterSection.
+func VerifParseFilterSection(section []byte) (*BloomFilters, error) {
+	return parseFilterSection(section)
+}
+
+// VerifDecodeBlockRowData forwards to decodeBlockRowData.
+func VerifDecodeBlockRowData(compressed []byte, block *DataBlockMetadata) ([]byte, error) {
+	return decodeBlockRowData(compressed, block)
+}
+
+// VerifReadPooledBlockRowData forwards to readPooledBlockRowData.
+func VerifReadPooledBlockRowData(file io.ReadSeeker, block *DataBlockMetadata) ([]byte, func(), error) {
+	return readPooledBlockRowData(file, block)
+}
+
+// VerifMaterializeRow forwards to materializeRow.
+func VerifMaterializeRow(rowBytes []byte) (map[string]any, error) { return materializeRow(rowBytes) }
+
+// VerifGetScanBuffer / VerifPutScanBuffer forward to the scan buffer pool.
+func VerifGetScanBuffer(size int) []byte { return getScanBuffer(size) }
+func VerifPutScanBuffer(buf []byte)      { putScanBuffer(buf) }
+
+// VerifCursorStep is what one blockFilterCursor.filtersFor call left behind.
+type VerifCursorStep struct {
+	Block      int
+	Err        error
+	ReadFailed bool
+	Filters    *BloomFilters
+	// the chunk in hand after the call
+	HasChunk   bool
+	ChunkStart int64
+	ChunkLen   int
+	// what heldSection reports for the block against that chunk (a copy)
+	Held    bool
+	Section []byte
+}
+
+// VerifFilterCursorPass runs one blockFilterCursor over blocks, calling
+// filtersFor for the given block indexes in the given order, and releases it.
+func VerifFilterCursorPass(file io.ReadSeeker, blocks []DataBlockMetadata, regionStart, regionEnd int64, order []int) []VerifCursorStep {
+	cursor := blockFilterCursor{file: file, blocks: blocks, regionStart: regionStart, regionEnd: regionEnd}
+	defer cursor.release()
+	steps := make([]VerifCursorStep, 0, len(order))
+	for _, i := range order {
+		filters, _, readFailed, err := cursor.filtersFor(i)
+		step := VerifCursorStep{Block: i, Err: err, ReadFailed: readFailed, Filters: filters,
+			HasChunk: cursor.buf != nil, ChunkStart: cursor.chunkStart, ChunkLen: len(cursor.buf)}
+		if section, ok := cursor.heldSection(&blocks[i]); ok {
+			step.Held = true
+			step.Section = append([]byte(nil), section...)
+		}
+		steps = append(steps, step)
+		if readFailed {
+			break
+		}
+	}
+	return steps
+}
+
+// VerifRegionWriter forwards to blockFilterRegionWriter.
+type VerifRegionWriter struct{ w blockFilterRegionWriter }
+
+func (r *VerifRegionWriter) Add(section []byte) (int, int) { return r.w.add(section) }
+func (r *VerifRegionWriter) Finish(w io.Writer, regionOffset int, blocks []DataBlockMetadata) (int, error) {
+	return r.w.finish(w, regionOffset, blocks)
+}
